@@ -191,11 +191,11 @@ def autocov(ctx, ackey, bodies):
     ps = [p['pat']['name'] for p in ba['params'] if p.get('pat', {}).get('k') == 'Binding']
     smp = S(ps[0]) if ps else S('sample')
     # rows <= 100 -> brute force else FFT, or the same decision written as rows > 100 -> FFT else brute force (integer comparison)
-    le100 = T.cmp('le', T.app('nrows', smp), N(100))
+    le100 = T.cmp('le', index_term(T.app('shape', smp), N(0)), N(100))
     br_bf = br_fft = None
     if ret[0] == 'ite' and ret[1] is le100:
         br_bf, br_fft = ret[2], ret[3]
-    elif ret[0] == 'ite' and ret[1] is T.cmp('gt', T.app('nrows', smp), N(100)):
+    elif ret[0] == 'ite' and ret[1] is T.cmp('gt', index_term(T.app('shape', smp), N(0)), N(100)):
         br_bf, br_fft = ret[3], ret[2]
     ok = br_bf is not None and T.is_app(br_bf) and T.is_app(br_fft) and br_bf[2] == (smp,) and br_fft[2] == (smp,) and br_bf[1] != br_fft[1]
     ctx.check('C12.switch', A, 'switch', ok, expected='rows <= 100 -> brute force, else FFT; both on the same chain', found=show(ret)[:200], sp=ba['sp'], why='path selection by chain length')
@@ -226,7 +226,7 @@ def bf(ctx, b):
     sp = b['sp']
     ps = [p['pat']['name'] for p in b['params'] if p.get('pat', {}).get('k') == 'Binding']
     data = S(ps[0])
-    n, dcols = T.proj(T.app('dim', data), 0), T.proj(T.app('dim', data), 1)
+    n, dcols = index_term(T.app('shape', data), N(0)), index_term(T.app('shape', data), N(1))
     loops = {ls.uid: ls for ls in ev.vf.loops}
     outer = [ls for ls in ev.vf.loops if not ls.ctx and ls.kind == 'for']
     inner = [ls for ls in ev.vf.loops if len(ls.ctx) == 1 and ls.kind == 'for']
@@ -238,16 +238,17 @@ def bf(ctx, b):
     # the lag index: the loop variable of `for lag in 0..n`, or the counter of `column.iter_mut().enumerate()`
     lag = li.var
     ok_ = carried_keys(li)
-    cdat = T.sub(T.app('column', data, col), T.app('mean', T.app('column', data, col)))
+    column = T.app('index_axis', data, AX(1), col)
+    cdat = T.sub(column, T.app('mean', column))
     t = S('k#t')
     def lagged(count):
         return T.div(T.app('sum', mk_comp(T.sub(count, lag), t, T.mul(index_term(cdat, t), index_term(cdat, T.add(t, lag))))), n)
     val = lagged(n)
-    val_alts = [lagged(T.app('len', cdat)), lagged(T.app('len', T.app('column', data, col)))]      # the series length is n (a column of an (n, d) array)
+    val_alts = [lagged(T.app('len', cdat)), lagged(T.app('len', column))]      # the series length is n (a column of an (n, d) array)
     # all n lags: `0..n`, or one per entry of the output column (the output is zeros((n, d)) and element updates keep its shape)
     outk = [k for k in carried_keys(lo)]
     lag_counts = [n] + ([T.app('len', index_term(lo.lh[outk[0]], T.app('axis', AX(1), col)))] if len(outk) == 1 and lo.init[outk[0]] is T.app('zeros', T.tup(n, dcols)) else [])
-    okshape = lo.n is T.app('len_of', T.app('zeros', T.tup(n, dcols)), AX(1)) and any(li.n is x for x in lag_counts) and isinstance(lo.elem, Tup) and ev.t(lo.elem.items[0]) is col
+    okshape = lo.n is index_term(T.app('shape', T.app('zeros', T.tup(n, dcols))), N(1)) and any(li.n is x for x in lag_counts) and isinstance(lo.elem, Tup) and ev.t(lo.elem.items[0]) is col
     ctx.check('C12.bf.loops', A, 'loops', okshape and len(ok_) == 1, expected='every column of an (n, d) zero array, every lag 0..n', found='cols n=%s, lags n=%s' % (show(lo.n), show(li.n)), sp=sp, why='one autocovariance series per parameter, all h lags')
     if len(ok_) != 1:
         return
@@ -323,5 +324,5 @@ def fft(ctx, b):
     ctx.eq('C12.fft.norm_take', A, 'norm', res, exp_res, sp=sp, why='real part of the first n lags scaled by 1/(n_padded n): rustfft does not normalise, and the autocovariance is normalised by the chain length')
     flat = T.app('flatten', T.app('eff', mk_comp(cl.n, cl.var, res), S('loop%d' % cl.uid))) if res is not None else None
     exp_ret = T.app('transpose', T.app('from_shape_vec', T.tup(d, n), flat)) if flat is not None else None
-    ctx.check('C12.fft.layout', A, 'layout', exp_ret is not None and ev.ret_term is exp_ret and cl.n is T.app('len_of', smp, AX(1)), expected='(d, n) array of the per-column series, transposed to (n, d)', found=show(ev.ret_term)[:200], sp=sp,
+    ctx.check('C12.fft.layout', A, 'layout', exp_ret is not None and ev.ret_term is exp_ret and cl.n is index_term(T.app('shape', smp), N(1)), expected='(d, n) array of the per-column series, transposed to (n, d)', found=show(ev.ret_term)[:200], sp=sp,
               why='lags along axis 0, parameters along axis 1 (same layout as the brute-force path)')
